@@ -313,6 +313,7 @@ def oracle(tag, a):
 
 
 OCCURRENCE_VOCABULARY = {"minOccurs", "maxOccurs", "use", "ref", "name"}
+NOT_OCCURRENCE = {"xml_name", "rust_name", "rust_type", "target_namespace", "is_any", "is_choice", "comment"}
 
 
 def _attribute_names(nf, acc=None):
@@ -361,7 +362,7 @@ def rule_occurrence(ck, F, X):
                 if c[0] != "alt":
                     continue
                 try:
-                    val = ev2.ev(c[1])
+                    val = ev2.ev(CEM.expand(c[1]))      # (accessor methods of the model — `self.is_vec()` — are read as what they return)
                 except fde.Undecided:
                     continue  # a condition over something else than the occurrence flags (e.g. the namespace): both branches considered
                 if bool(val) != c[2]:
@@ -390,9 +391,16 @@ def rule_occurrence(ck, F, X):
         flags = {k: CE.expand(fields[k]) for k in ("is_vec", "is_optional", "is_attribute") if k in fields}
         # helpers that decide with a general `match` (a parsed value against its variants) are taken in as well: they are evaluated
         flags = {k: CEM.expand(v) for k, v in flags.items()}
+        model_mode = False
         if len(flags) != 3:
-            ck.undecided("R2", f"{label}:flags", site, "constructor site without explicit occurrence flags")
-            continue
+            # the occurrence is kept in another shape (an enum for the cardinality, one for the kind): every member of the model that is
+            # not a name, a type or a namespace is part of it; the emitter's decisions are evaluated on those values
+            others = {k: CEM.expand(CE.expand(v)) for k, v in fields.items() if k not in NOT_OCCURRENCE}
+            if not others:
+                ck.undecided("R2", f"{label}:flags", site, "constructor site without explicit occurrence flags")
+                continue
+            flags = others
+            model_mode = True
         # how often a member occurs is said by minOccurs / maxOccurs / use (and by what it stands in) and by nothing else: the table
         # below varies those; a flag that also reads another attribute (nillable, default, form ..) is outside it
         for k_, v_ in sorted(flags.items()):
@@ -419,8 +427,9 @@ def rule_occurrence(ck, F, X):
                 ev = fde.Evaluator({("param", "node"): node})
                 try:
                     fv = {k: ev.ev(v) for k, v in flags.items()}
-                    ev2 = fde.Evaluator({("field", self_, "is_vec"): fv["is_vec"], ("field", self_, "is_optional"): fv["is_optional"],
-                                         ("field", self_, "is_attribute"): fv["is_attribute"], ("field", self_, "rust_type"): "T"})
+                    b2_ = {("field", self_, k_): v_ for k_, v_ in fv.items()}
+                    b2_[("field", self_, "rust_type")] = "T"
+                    ev2 = fde.Evaluator(b2_)
                     ws = select(member_vars, ev2, wrapper_of)
                     ats = select(attr_vars, ev2, attr_flag_of)
                 except fde.Undecided as u:
